@@ -212,6 +212,84 @@ def run(chk):
                            "writer_flags": flags, "sizes": [len(d) for d in datas]}, signature="memio")
     chk.count("memory-vs-file", len(mem_lines), set((m[0], m[1]) for m in mem_meta), samples=[{"case": mem_lines[0]}] if mem_lines else [])
 
+    # ---- memory vs file input on DAMAGED files whose xref table must be reconstructed, in every end-of-line convention
+    # (LF, CR LF, bare CR, mixed): the recovery code walks the file line by line through the InputSource, and the buffer and
+    # the file implementation of findAndSkipNextEOL must agree
+    def eol_variants(data):
+        body = data
+        out = {"lf": body, "crlf": body.replace(b"\n", b"\r\n"), "cr": body.replace(b"\n", b"\r")}
+        lines = body.split(b"\n")
+        out["mixed"] = b"".join(l + (b"\r" if i % 3 == 0 else b"\n" if i % 3 == 1 else b"\r\n") for i, l in enumerate(lines))
+        return out
+    dmg_lines, dmg_meta = [], []
+    ddocs = [pdfgen.page_doc(3, marker="D", kids_levels=1), pdfgen.page_doc(5, marker="E", kids_levels=2, rotate={2: 90})]
+    for di, dd in enumerate(ddocs):
+        raw = pdfgen.write_classic(dd)[0]
+        for ename, ev in eol_variants(raw).items():
+            # damage the bookkeeping only: startxref points nowhere, so reconstruct_xref scans the file
+            i = ev.rfind(b"startxref")
+            dmg = ev[:i] + b"startxref" + (b"\r" if ename == "cr" else b"\n") + b"7" + ev[i + 9 + 1:].lstrip(b"0123456789")
+            dp = os.path.join(wd, "dmg%d-%s.pdf" % (di, ename))
+            open(dp, "wb").write(dmg)
+            for flags in ("static", "static,qdf"):
+                outs = []
+                for im in ("file", "mem"):
+                    o = os.path.join(wd, "dm%d-%s-%s-%s.pdf" % (di, ename, flags.replace(",", "_"), im))
+                    dmg_lines.append("rewrite_mem %s %s file %s %s" % (dp, im, o, flags))
+                    outs.append(o)
+                dmg_meta.append((dp, flags, outs))
+    dres = common.run_lines(drv, dmg_lines, shards=4)
+    dit = iter(dres)
+    n_dmg = set()
+    for dp, flags, outs in dmg_meta:
+        rs = [next(dit) for _ in outs]
+        if all(r.startswith("ok") for r in rs):
+            datas = [open(o, "rb").read() for o in outs]
+            n_dmg.add((dp, flags))
+            same = datas[0] == datas[1]
+        else:
+            # both must fail alike (an exception text is part of the observable result)
+            same = rs[0] == rs[1]
+            datas = [b"", b""]
+        if not same:
+            chk.violation({"kind": "property-fails-on-implementation", "why": "a damaged input is recovered differently from a named file and from a memory buffer",
+                           "input": dp, "writer_flags": flags, "results": [r[:120] for r in rs], "sizes": [len(d) for d in datas]}, signature="memio-damaged")
+    chk.count("memory-vs-file-damaged-eol", len(dmg_lines), n_dmg, samples=[{"case": dmg_lines[0]}])
+
+    # ---- one QPDF object written twice: the second write must give the bytes a freshly opened document gives with the same
+    # options (the writer must not leave traces of the first write - version extensions, encryption, filters - in the document)
+    tw_lines, tw_meta = [], []
+    firsts = ["static,enc256", "static,minver", "static,lin,enc256", "static,gen", "static,qdf", "static,enc128", "static,force14", "static,lin", "static,uncompress", "static,norm,qdf"]
+    seconds = ["static", "static,lin", "static,qdf", "static,gen", "static,dis,nocompress"]
+    tw_inputs = inputs[: (5 if quick else 40)]
+    for k, inp in enumerate(tw_inputs):
+        if inp in encrypted_inputs:
+            continue
+        for fi, f1 in enumerate(firsts if not quick else rng.sample(firsts, 4)):
+            f2 = seconds[(k + fi) % len(seconds)]
+            o1 = os.path.join(wd, "tw%d-%d-first.pdf" % (k, fi))
+            o2 = os.path.join(wd, "tw%d-%d-second.pdf" % (k, fi))
+            of = os.path.join(wd, "tw%d-%d-fresh.pdf" % (k, fi))
+            tw_lines.append("rewrite_twice %s file %s %s %s %s" % (inp.replace(" ", "\\ "), o1, f1, o2, f2))
+            tw_lines.append("rewrite_twice %s file %s %s" % (inp.replace(" ", "\\ "), of, f2))
+            tw_meta.append((inp, f1, f2, o2, of))
+    tres = common.run_lines(drv, tw_lines, shards=4)
+    tit = iter(tres)
+    tw_nt = set()
+    for inp, f1, f2, o2, of in tw_meta:
+        r1, r2 = next(tit), next(tit)
+        if not (r1.startswith("ok") and r2.startswith("ok")):
+            continue
+        tw_nt.add((inp, f1, f2))
+        d2, df = open(o2, "rb").read(), open(of, "rb").read()
+        if d2 != df:
+            first = next((i for i, (x, y) in enumerate(zip(d2, df)) if x != y), min(len(d2), len(df)))
+            chk.violation({"kind": "property-fails-on-implementation", "why": "the second write of one QPDF object differs from the write of a freshly opened document with the same options",
+                           "input": inp, "first_write_flags": f1, "second_write_flags": f2, "first_difference_at": first, "sizes": [len(d2), len(df)],
+                           "second": d2[max(0, first - 40):first + 40].decode("latin-1"), "fresh": df[max(0, first - 40):first + 40].decode("latin-1")},
+                          signature="write-twice:%s" % ("extensions" if b"/Extensions" in d2[max(0, first - 200):first + 200] + df[max(0, first - 200):first + 200] else "other"))
+    chk.count("write-twice", len(tw_lines), tw_nt, samples=[{"case": tw_lines[0]}] if tw_lines else [])
+
     # ---- host locale: the same job in-process under the classic global C++ locale and under one with a decimal comma and
     # digit grouping (std::locale::global of a host application); jobs that make qpdf print real numbers it computed
     ldoc = pdfgen.page_doc(3, marker="L", rotate={1: 90, 2: 270, 3: 180}, mediabox={1: [0, 0, pdfgen.Real("1200.5"), pdfgen.Real("2300.25")], 2: [10, 20, 3000, 4000]})
